@@ -445,3 +445,71 @@ def gen_errcodes():
         out += "def %s : Nat := %d\n" % (nm, vals[nm])
     out += "\nend XV.Gen.ErrCodes\n"
     return out
+
+
+# ---- C20 (builder) ----
+# ------------------------------------------------------------------ C20: XInclude error codes
+@translate.register("XIncludeErrs")
+def gen_xinclude_errs():
+    """XMLErrs::Codes values of every XInclude* code and of the severity bounds (framework/XMLErrorCodes.hpp),
+    plus the constant strings XIncludeUtils compares attribute values / names with (xinclude/XIncludeUtils.cpp)."""
+    rel = "framework/XMLErrorCodes.hpp"
+    t = strip_c_comments(src(rel))
+    m = re.search(r"class\s+XMLErrs\b.*?enum\s+Codes\s*\{(.*?)\}", t, flags=re.S)
+    if not m:
+        raise TranslateError("enum XMLErrs::Codes not found in %s" % rel)
+    vals, nxt = {}, 0
+    for item in m.group(1).split(","):
+        item = item.strip()
+        if not item:
+            continue
+        mm = re.fullmatch(r"(\w+)\s*(?:=\s*(\w+))?", item)
+        if not mm:
+            raise TranslateError("cannot parse enumerator %r in %s" % (item, rel))
+        if mm.group(2) is not None:
+            nxt = vals[mm.group(2)] if mm.group(2) in vals else c_int(mm.group(2))
+        vals[mm.group(1)] = nxt
+        nxt += 1
+    need = ["W_LowBounds", "W_HighBounds", "E_LowBounds", "E_HighBounds", "F_LowBounds", "F_HighBounds",
+            "XIncludeResourceErrorWarning", "XIncludeCannotOpenFile", "XIncludeIncludeFailedResourceError",
+            "XIncludeOrphanFallback", "XIncludeNoHref", "XIncludeXPointerNotSupported", "XIncludeInvalidParseVal",
+            "XIncludeMultipleFallbackElems", "XIncludeIncludeFailedNoFallback", "XIncludeCircularInclusionLoop",
+            "XIncludeCircularInclusionDocIncludesSelf", "XIncludeDisallowedChild"]
+    out = HEADER + "namespace XV.Gen.XIncludeErrs\n\n"
+    for n in need:
+        if n not in vals:
+            raise TranslateError("XMLErrs::%s not found in %s" % (n, rel))
+        out += "def %s : Nat := %d\n" % (n, vals[n])
+    xi = sorted((v, k) for k, v in vals.items() if k.startswith("XInclude"))
+    out += "\n/-- every XInclude* enumerator (name, value) -/\ndef all : List (String × Nat) := [\n"
+    out += ",\n".join('  ("%s", %d)' % (k, v) for v, k in xi) + "]\n"
+    # attribute-value / name constants of XIncludeUtils (XMLCh arrays written as chLatin_x lists)
+    rel2 = "xinclude/XIncludeUtils.cpp"
+    t2 = strip_c_comments(src(rel2))
+    def xmlch(name):
+        mm = re.search(r"XIncludeUtils::%s\s*\[\s*\]\s*=\s*\{(.*?)\}" % re.escape(name), t2, flags=re.S)
+        if not mm:
+            raise TranslateError("%s not found in %s" % (name, rel2))
+        s = ""
+        for tok in mm.group(1).split(","):
+            tok = tok.strip()
+            if tok == "chNull" or not tok:
+                continue
+            k = re.fullmatch(r"chLatin_(\w)", tok)
+            d = re.fullmatch(r"chDigit_(\d)", tok)
+            if k: s += k.group(1)
+            elif d: s += d.group(1)
+            elif tok == "chColon": s += ":"
+            elif tok == "chForwardSlash": s += "/"
+            elif tok == "chPeriod": s += "."
+            elif tok == "chDash": s += "-"
+            else:
+                raise TranslateError("unknown character constant %s in %s" % (tok, name))
+        return s
+    out += "\n"
+    for nm in ("fgXIIncludeQName", "fgXIFallbackQName", "fgXIIncludeHREFAttrName", "fgXIIncludeParseAttrName",
+               "fgXIIncludeXPointerAttrName", "fgXIIncludeEncodingAttrName", "fgXIIncludeParseAttrXMLValue",
+               "fgXIIncludeParseAttrTextValue", "fgXIIIncludeNamespaceURI", "fgXIBaseAttrName"):
+        out += 'def %s : String := "%s"\n' % (nm, xmlch(nm))
+    out += "\nend XV.Gen.XIncludeErrs\n"
+    return out
